@@ -1,6 +1,7 @@
 package mon
 
 import (
+	"bytes"
 	"context"
 	"fmt"
 	"math/rand"
@@ -689,5 +690,94 @@ func c03DeepRecursion(c *drv.Ctx) {
 		c03Run(cs, b, []byte{t}, 1<<31)
 		cs.Count(true, "deep", cs.Idx)
 		cs.C.Obs("deep-recursion cases", 1)
+	})
+
+	// (8) wide instead of deep: millions of siblings at one level take no more stack than one of them
+	c.Stage("wide-values", 3, true, func(cs *drv.Case) {
+		old := debug.SetMaxStack(32 << 20)
+		defer debug.SetMaxStack(old)
+		n := 1500000
+		var b []byte
+		t := byte(ref.STRUCT)
+		switch cs.Idx {
+		case 0: // a struct with n boolean fields
+			b = make([]byte, 0, 4*n+1)
+			for i := 0; i < n; i++ {
+				b = append(b, ref.BOOL, byte(i>>8), byte(i), 1)
+			}
+			b = append(b, 0)
+		case 1: // a list of n empty structs
+			t = ref.LIST
+			b = ref.EncListBegin(nil, ref.STRUCT, uint32(n))
+			b = append(b, make([]byte, n)...)
+		default: // a struct whose n fields are empty strings
+			b = make([]byte, 0, 7*n+1)
+			for i := 0; i < n; i++ {
+				b = append(b, ref.STRING, byte(i>>8), byte(i), 0, 0, 0, 0)
+			}
+			b = append(b, 0)
+		}
+		cs.Desc = M{"siblings": n, "type": t, "input_len": len(b), "stack_cap": "32 MiB"}
+		for _, which := range []string{"Binary.Skip", "BytesSkipDecoder", "BufferReader.Skip", "SkipDecoder", "ReaderSkipDecoder"} {
+			var got int
+			var err error
+			switch which {
+			case "Binary.Skip":
+				got, err = thrift.Binary.Skip(b, thrift.TType(t))
+			case "BytesSkipDecoder":
+				d := thrift.NewBytesSkipDecoder(b)
+				var out []byte
+				out, err = d.Next(thrift.TType(t))
+				got = len(out)
+				d.Release()
+			case "BufferReader.Skip":
+				rd := bufiox.NewBytesReader(b)
+				br := thrift.NewBufferReader(rd)
+				err = br.Skip(thrift.TType(t))
+				got = rd.ReadLen()
+				br.Recycle()
+			case "SkipDecoder":
+				rd := bufiox.NewBytesReader(b)
+				d := thrift.NewSkipDecoder(rd)
+				var out []byte
+				out, err = d.Next(thrift.TType(t))
+				got = len(out)
+				d.Release()
+			default:
+				// (this decoder re-copies what it has read so far on every piece: a fraction of the siblings keeps
+				// the case short; the recursion it shares with the other two decoders is exercised by them)
+				small := b
+				switch cs.Idx {
+				case 0:
+					small = append(append([]byte(nil), b[:4*50000]...), 0)
+				case 1:
+					small = append(ref.EncListBegin(nil, ref.STRUCT, 50000), make([]byte, 50000)...)
+				default:
+					small = append(append([]byte(nil), b[:7*50000]...), 0)
+				}
+				d := thrift.NewReaderSkipDecoder(bytes.NewReader(small))
+				var out []byte
+				out, err = d.Next(thrift.TType(t))
+				got = len(out) + len(b) - len(small)
+				d.Release()
+			}
+			if err != nil || got != len(b) {
+				cs.Fail("decoder-wide-value", M{"entry": which}, M{"err": errString(err), "consumed": got, "input_len": len(b), "message": "a well-formed value with very many siblings at one level was not skipped"})
+				return
+			}
+		}
+		if cs.Idx != 1 {
+			if fs, err := unknownfields.ConvertUnknownFields(b[:len(b)-1]); err != nil || len(fs) != n {
+				cs.Fail("decoder-wide-value", M{"entry": "ConvertUnknownFields"}, M{"err": errString(err), "fields": len(fs)})
+				return
+			}
+			var bs base.Base
+			if l, err := bs.FastRead(b); err != nil || l != len(b) {
+				cs.Fail("decoder-wide-value", M{"entry": "Base.FastRead"}, M{"err": errString(err), "consumed": l, "input_len": len(b)})
+				return
+			}
+		}
+		cs.Count(true, "wide", cs.Idx)
+		cs.C.Obs("wide-value cases", 1)
 	})
 }
